@@ -17,6 +17,7 @@ from hypothesis import HealthCheck, Phase, given, seed, settings
 
 VERIF = os.path.dirname(os.path.dirname(os.path.abspath(__file__)))
 REPO = os.environ.get("VERIF_REPO", "/repo")
+OUT = os.environ.get("VERIF_OUT", VERIF)  # evidence/replays root (sensitivity runs redirect it)
 MAX_ROOT_CAUSES = 6
 
 
@@ -32,7 +33,7 @@ class Result:
 
 class Part:
     def __init__(self, name, strategy, execute, quick, thorough, shards=16, exhaustive=None,
-                 shrink_quick=True):
+                 shrink_quick=True, quick_shards=8):
         self.name = name
         self.strategy = strategy      # callable(tier) -> hypothesis strategy of JSON-able cases
         self.execute = execute        # callable(case) -> Result
@@ -41,6 +42,7 @@ class Part:
         self.shards = shards
         self.exhaustive = exhaustive  # callable(tier) -> iterable of cases (finite enumeration)
         self.shrink_quick = shrink_quick
+        self.quick_shards = quick_shards
 
 
 class HarnessError(Exception):
@@ -194,7 +196,34 @@ def _run_part(pid, part, tier, seed_value, known_sigs, n_examples, want_shrink):
     return stats
 
 
+def _regress(args):
+    _, pid, modname, known_sigs = args
+    import glob
+    mod = __import__(modname, fromlist=["PARTS"])
+    stats = Stats()
+    for path in sorted(glob.glob(os.path.join(VERIF, "regress", "%s-*.json" % pid))):
+        with open(path) as f:
+            data = json.load(f)
+        case = data.get("case", data)
+        try:
+            res = replay_case(mod, case)
+        except Exception as e:
+            if from_repo(e.__traceback__):
+                res = Result([(exc_signature(pid, e), repr(e))])
+            else:
+                return ("err", "".join(traceback.format_exception(type(e), e, e.__traceback__)))
+        stats.evaluations += 1
+        stats.parts["regress"] += 1
+        for sig, detail in res.violations:
+            if sig not in known_sigs:
+                stats.found.setdefault(sig, {"detail": "regression file %s: %s" % (
+                    os.path.basename(path), detail), "case": case})
+    return ("ok", stats)
+
+
 def _shard(args):
+    if args[0] == "regress":
+        return _regress(args)
     pid, modname, part_name, tier, seed_value, known_sigs, n, want_shrink = args
     sys.setrecursionlimit(10000)
     mod = __import__(modname, fromlist=["PARTS"])
@@ -220,41 +249,25 @@ def run_property(mod, tier, seed_value, only_part=None):
             continue
         if tier == "quick":
             n = max(1, int(part.quick * scale))
-            jobs.append((pid, mod.__name__, part.name, tier, seed_value, known_sigs, n,
-                         part.shrink_quick))
+            qs = max(1, min(part.quick_shards, n // 20))
+            for sh in range(qs):
+                jobs.append((pid, mod.__name__, part.name, tier, seed_value * 100 + sh,
+                             known_sigs, (n + qs - 1) // qs, part.shrink_quick))
         else:
             n = max(1, int(part.thorough * scale))
             for sh in range(part.shards):
                 jobs.append((pid, mod.__name__, part.name, tier, seed_value * 1000 + sh + 1,
                              known_sigs, n, True))
     # seconds-long replay tier: saved shrunk failures (regress/<ID>-*.json) are re-executed first
-    import glob
-    regress_found = {}
-    for path in sorted(glob.glob(os.path.join(VERIF, "regress", "%s-*.json" % pid))):
-        with open(path) as f:
-            data = json.load(f)
-        case = data.get("case", data)
-        try:
-            res = replay_case(mod, case)
-        except Exception as e:
-            if from_repo(e.__traceback__):
-                res = Result([(exc_signature(pid, e), repr(e))])
-            else:
-                raise
-        total.evaluations += 1
-        total.parts["regress"] += 1
-        for sig, detail in res.violations:
-            if sig not in known_sigs:
-                regress_found.setdefault(sig, {"detail": detail, "case": case})
+    # (as a pool job of their own: the parent process must stay free of threads before forking)
+    jobs.insert(0, ("regress", pid, mod.__name__, sorted(known_sigs)))
     errors = []
-    if len(jobs) == 1 or os.environ.get("VERIF_NOFORK"):
+    if os.environ.get("VERIF_NOFORK"):
         results = [_shard(j) for j in jobs]
     else:
         ctx = multiprocessing.get_context("fork")
         with ctx.Pool(min(16, len(jobs))) as pool:
             results = pool.map(_shard, jobs, chunksize=1)
-    for sig, info in regress_found.items():
-        total.found.setdefault(sig, info)
     for status, payload in results:
         if status == "ok":
             total.merge(payload)
@@ -277,13 +290,13 @@ def run_property(mod, tier, seed_value, only_part=None):
         if still or total.known_hits.get(e["signature"]):
             print("KNOWN-FINDING: property=%s %s (%s)" % (pid, e["signature"], e.get("what", "")))
 
-    os.makedirs(os.path.join(VERIF, "replays"), exist_ok=True)
-    os.makedirs(os.path.join(VERIF, "evidence"), exist_ok=True)
+    os.makedirs(os.path.join(OUT, "replays"), exist_ok=True)
+    os.makedirs(os.path.join(OUT, "evidence"), exist_ok=True)
     rc = 0
     for sig, info in sorted(total.found.items()):
         rc = 1
         name = "%s-%s.json" % (pid, hashlib.sha1(sig.encode()).hexdigest()[:10])
-        path = os.path.join(VERIF, "replays", name)
+        path = os.path.join(OUT, "replays", name)
         with open(path, "w") as f:
             json.dump({"property": pid, "signature": sig, "detail": info["detail"],
                        "case": info["case"], "seed": seed_value, "tier": tier}, f, indent=1,
@@ -312,7 +325,7 @@ def run_property(mod, tier, seed_value, only_part=None):
         "wall_s": round(time.time() - t0, 2),
         "violations": len(total.found),
     }
-    with open(os.path.join(VERIF, "evidence", "%s.json" % pid), "w") as f:
+    with open(os.path.join(OUT, "evidence", "%s.json" % pid), "w") as f:
         json.dump(ev, f, indent=1, default=str)
     print("%s %s seed=%d: %d cases, %d distinct non-trivial, %d violation signature(s), %.1fs"
           % (pid, tier, seed_value, total.evaluations, nt, len(total.found), time.time() - t0))
